@@ -402,12 +402,17 @@ def run_C09(ctx):
                 "reading of the RECORDED document must be the subject's AST (catches encoder and decoder wrong in the same way); "
                 "the decoded policy must be SameAst; the detour must equal what the text alone denotes; all variants have the same "
                 "outcome, equal to CedarPolicy!Outcome for random policies under random environments; policy-set JSON preserves ids "
-                "and the policy under every id. distinct = distinct inputs.")
+                "and the policy under every id; every respelling of the recorded document that the specification reads as the same "
+                "policy must be accepted by the real decoder as the same policy, with the same outcomes. distinct = distinct inputs.")
     ctx.assumptions = ["the JSON policy format in PolicyJson.tla is a transcription of the documented format; one deviation of the code "
                        "is read as it writes it: `in` with an empty entity list is encoded without an `entities` member",
                        "ASTs that call functions Cedar does not have are outside the statement's quantifier and skipped",
                        "names (types, ids, attribute names, keys, function names) are related to their characters by spelling tables "
-                       "computed by harness and checker", "alternative spellings written by other encoders are not generated"]
+                       "computed by harness and checker",
+                       "alternative spellings: the recorded document is respelled by the harness (explicit scope entities, implicit entity "
+                       "values, split pattern literals with empty literals, extension values <-> constructor calls, reversed member order, "
+                       "explicit empty members, all strings \\u-escaped with white space); each respelled document is READ BY THE "
+                       "SPECIFICATION and judged only where the specification reads the subject's policy from it"]
     q = ctx.quick
     add_gen_exec_validate(ctx, "pjson", "syntax", "MC_Syntax", ["mc/MC_Syntax.tla"],
                           cfg=GEN_CFG + SYNTAX_CONSTS + 'CONSTANT Mode = "marshal"\n', min_cases=5000, timeout=7200, transform=to_pjson)
@@ -415,6 +420,10 @@ def run_C09(ctx):
     add_gen_exec_validate(ctx, "pjson", "exprs", "MC_MarshalExpr", ["mc/MC_MarshalExpr.tla"], cfg=GEN_CFG + consts,
                           min_cases=1000, timeout=7200, transform=to_pjson)
     add_m3(ctx, "pjson", "random", "pjson", 3000 if q else 60000)
+    judged = sum(st.get("respellings_judged", 0) for st in ctx.cov["stages"])
+    if judged < 1000:
+        raise Broken("C09: only %d respelled documents were judged (vacuous)" % judged)
+    ctx.cov["respellings_judged"] = judged
     return vlib.finish(ctx, confirm_all)
 
 
